@@ -2,6 +2,7 @@ package harness
 
 import (
 	"bytes"
+	"context"
 	"fmt"
 	"github.com/lightninglabs/lightning-node-connect/mailbox"
 	"io"
@@ -9,6 +10,7 @@ import (
 	"strings"
 	"sync"
 	"testing"
+	"testing/synctest"
 	"time"
 )
 
@@ -397,9 +399,115 @@ func c05Scenarios() []*c05Scenario {
 	return scs
 }
 
+// relayLayerCase: the retry loops of the mailbox layer (ServerConn.sendToStream / recvFromStream)
+// driven directly over one mailbox of the fake relay, with the outcome of every single stream
+// operation scripted: send attempts that succeed, are acknowledged and lost, fail without or with the
+// relay having queued the payload; receive attempts that succeed or fail without or with the relay
+// having taken the head of the queue. The payloads handed out, in order, are compared with the
+// model (Relay.lean: relay.run), and the property's own requirement is evaluated on them: obtained
+// from the payloads sent by dropping some and repeating some in place (no reordering, nothing
+// altered or invented) - the channel the Go-Back-N theorems assume.
+func relayLayerCase(t *testing.T, r *Recorder, seed int) {
+	rng := newRand(int64(5500 + seed))
+	nmsg := 1 + rng.Intn(7)
+	var sendScript []string // per call: its tries
+	var flatSend, flatRecv []byte
+	for i := 0; i < nmsg; i++ {
+		var tries []byte
+		for rng.Intn(3) == 0 && len(tries) < 3 {
+			tries = append(tries, "qf"[rng.Intn(2)])
+		}
+		tries = append(tries, "oool"[rng.Intn(4)])
+		sendScript = append(sendScript, string(tries))
+		flatSend = append(flatSend, tries...)
+	}
+	for i := 0; i < 3*nmsg+4; i++ {
+		flatRecv = append(flatRecv, "ooootf"[rng.Intn(6)])
+	}
+	var got []int
+	var bad string
+	func() {
+		defer func() {
+			if p := recover(); p != nil {
+				bad = fmt.Sprint(p)
+			}
+		}()
+		synctest.Test(t, func(t *testing.T) {
+			relay := NewFakeRelay()
+			var x, y [64]byte
+			x[0], y[0] = 1, 2
+			relay.Fault = func(op, sid string, n int) RelayFault {
+				var c byte = 'o'
+				switch {
+				case op == "send" && sid == sidKey(y[:]) && n < len(flatSend):
+					c = flatSend[n]
+				case op == "recv" && sid == sidKey(y[:]) && n < len(flatRecv):
+					c = flatRecv[n]
+				}
+				switch c {
+				case 'l':
+					return RelayFault{Drop: true}
+				case 'q', 't':
+					return RelayFault{StreamErr: true, Ambiguous: true}
+				case 'f':
+					return RelayFault{StreamErr: true}
+				}
+				return RelayFault{}
+			}
+			ctx, cancel := context.WithCancel(context.Background())
+			a := mailbox.VBareServerConn(ctx, relay, x, y) // sends into mailbox y
+			b := mailbox.VBareServerConn(ctx, relay, y, x) // receives from mailbox y
+			for i := 0; i < nmsg; i++ {
+				if err := a.VSendToStream(ctx, []byte{byte(i + 1)}); err != nil {
+					bad = "sendToStream: " + err.Error()
+					break
+				}
+			}
+			for bad == "" {
+				rctx, rcancel := context.WithTimeout(ctx, 60*time.Second)
+				m, err := b.VRecvFromStream(rctx)
+				rcancel()
+				if err != nil || len(m) != 1 {
+					break // nothing more in the mailbox
+				}
+				got = append(got, int(m[0]))
+			}
+			cancel()
+			a.Close()
+			b.Close()
+			synctest.Wait()
+		})
+	}()
+	name := fmt.Sprintf("relay-layer:%s/%s", strings.Join(sendScript, ","), flatRecv)
+	r.Case(name, true, "relay-layer")
+	if bad != "" && !strings.Contains(bad, "blocked goroutines remain") {
+		r.Violate("C05/relay-layer-failed", bad, name)
+		return
+	}
+	// oracle: got arises from 1..nmsg by dropping and repeating in place
+	ok, prev := true, 0
+	for _, g := range got {
+		if g < prev || g < 1 || g > nmsg {
+			ok = false
+		}
+		prev = g
+	}
+	if !ok {
+		r.Violate("C05/relay-layer-reorders", fmt.Sprintf("payloads 1..%d given to the send function in order (attempt outcomes %v), receive attempts %s: the receive function handed out %v", nmsg, sendScript, flatRecv, got), name)
+	}
+	out := "none"
+	if len(got) > 0 {
+		out = ints(got)
+	}
+	r.Emit(fmt.Sprintf("relay.run %s %s", strings.Join(sendScript, ","), flatRecv), out)
+}
+
 func TestC05(t *testing.T) {
 	r := NewRecorder(t, "C05")
 	defer r.Close(t)
+	for i := 0; i < pick(150, 3000); i++ {
+		relayLayerCase(t, r, i)
+	}
 	scs := c05Scenarios()
 	var mu sync.Mutex
 	idx := 0
